@@ -155,6 +155,10 @@ func (r *Report) Finish(explanation string, assumptions []string, notCovered str
 	if r.cur != nil {
 		r.End()
 	}
+	for _, n := range normNotes {
+		fmt.Println("NOTE source normalisation:", n)
+		assumptions = append(assumptions, "source normalisation (new helper functions inlined before analysis): "+n)
+	}
 	known, err := loadKnown(filepath.Join(r.verifDir, "known_findings.txt"))
 	if err != nil {
 		fmt.Printf("cannot read known_findings.txt: %v\n", err)
